@@ -566,3 +566,135 @@ Proof.
   { intros q [<-|[<-|[]]]; [apply Hw; left; reflexivity | split; [reflexivity | exact I]]. }
   destruct bal; try contradiction; apply null_fill_rest; assumption.
 Qed.
+
+(* ------------------------------------------------------------ the two-commodity implied rate *)
+
+(* postings the rate is applied to: those that must balance and whose amount is in commodity c *)
+Definition rated (c : option comm) (p : post) : bool :=
+  match p_amt p with Some a => must_balance p && comm_eqb (acomm a) c | None => false end.
+
+Fixpoint rated_sum (c : option comm) (ps : list post) (k : option comm) : Q :=
+  match ps with
+  | [] => 0
+  | p :: ps' => (if rated c p then match p_amt p with Some a => at_comm a k | None => 0 end else 0)
+                + rated_sum c ps' k
+  end.
+
+Fixpoint rated_cost_sum (cp : comm -> Z) (rate : amount) (c : option comm) (ps : list post) (k : option comm) : Q :=
+  match ps with
+  | [] => 0
+  | p :: ps' => (if rated c p then match p_amt p with Some a => at_comm (amt_mul cp rate a) k | None => 0 end else 0)
+                + rated_cost_sum cp rate c ps' k
+  end.
+
+(* apply_rate leaves accounts, kinds and amounts alone and moves the balance by exactly
+   (costs assigned) - (amounts rated) *)
+Lemma apply_rate_exact ord cp rate c k : forall ps bal ps' bal',
+  apply_rate ord cp rate c ps bal = Ok (ps', bal') ->
+  map p_amt ps' = map p_amt ps /\ map p_acct ps' = map p_acct ps /\ map p_kind ps' = map p_kind ps /\
+  den bal' k == den bal k - rated_sum c ps k + rated_cost_sum cp rate c ps k.
+Proof.
+  induction ps as [|p ps IH]; intros bal ps' bal'; cbn [apply_rate rated_sum rated_cost_sum].
+  - intros [= <- <-]. repeat split. ring.
+  - unfold rated. destruct (p_amt p) as [amt|] eqn:Ea.
+    + destruct (must_balance p && comm_eqb (acomm amt) c) eqn:Er.
+      * destruct (v_sub ord bal (VAmt amt)) as [b1|] eqn:E1; cbn [bind]; [|discriminate].
+        destruct (v_add ord b1 (VAmt (amt_mul cp rate amt))) as [b2|] eqn:E2; cbn [bind]; [|discriminate].
+        destruct (apply_rate ord cp rate c ps b2) as [[qs b3]|] eqn:E3; cbn [bind]; [|discriminate].
+        intros [= <- <-]. destruct (IH _ _ _ E3) as [H1 [H2 [H3 H4]]]. cbn [map fst snd p_amt p_acct p_kind].
+        rewrite H1, H2, H3, Ea. repeat split.
+        rewrite H4, (v_add_exact _ _ _ _ k E2), (v_sub_exact _ _ _ _ k E1). cbn [den]. ring.
+      * destruct (apply_rate ord cp rate c ps bal) as [[qs b3]|] eqn:E3; cbn [bind]; [|discriminate].
+        intros [= <- <-]. destruct (IH _ _ _ E3) as [H1 [H2 [H3 H4]]]. cbn [map fst snd].
+        rewrite H1, H2, H3. repeat split. rewrite H4. ring.
+    + destruct (apply_rate ord cp rate c ps bal) as [[qs b3]|] eqn:E3; cbn [bind]; [|discriminate].
+      intros [= <- <-]. destruct (IH _ _ _ E3) as [H1 [H2 [H3 H4]]]. cbn [map fst snd].
+      rewrite H1, H2, H3. repeat split. rewrite H4. ring.
+Qed.
+
+(* every cost assigned by the rate is exactly rate * amount, in the rate's commodity *)
+Lemma rated_cost_sum_exact cp rate c cy : forall ps,
+  acomm rate = Some cy ->
+  rated_cost_sum cp rate c ps (Some cy) == aq rate * rated_sum c ps c /\
+  (forall k, comm_eqb (Some cy) k = false -> rated_cost_sum cp rate c ps k == 0).
+Proof.
+  intros ps Hr. induction ps as [|p ps [IH1 IH2]]; cbn [rated_cost_sum rated_sum].
+  - split; [ring | intros; reflexivity].
+  - assert (Hc : forall a, acomm (amt_mul cp rate a) = Some cy).
+    { intros a. unfold amt_mul. cbn [acomm]. rewrite Hr. reflexivity. }
+    unfold rated. destruct (p_amt p) as [a|]; [|split; [rewrite IH1; ring | intros k Hk; rewrite (IH2 k Hk); ring]].
+    destruct (must_balance p && comm_eqb (acomm a) c) eqn:Er.
+    + apply andb_true_iff in Er as [_ Ec]. split.
+      * rewrite IH1. unfold at_comm. rewrite Hc, comm_eqb_refl, Ec, amt_mul_exact. ring.
+      * intros k Hk. rewrite (IH2 k Hk). unfold at_comm. rewrite Hc, Hk. ring.
+    + split; [rewrite IH1; ring | intros k Hk; rewrite (IH2 k Hk); ring].
+Qed.
+
+(* THE TWO-COMMODITY RULE.  When the transaction has no elided amount and its balance holds
+   exactly two commodities x (the top posting's) and y, every balancing posting in x gets the
+   cost |y/x| * amount, and the balance becomes: nothing left in x, and  y + |y/x| * x  in y -
+   which is zero exactly when the two commodity totals have opposite signs. *)
+Theorem two_commodity_rate ord cp ps bal x y q cx cy ps' bal' :
+  acomm x = Some cx -> acomm y = Some cy -> comm_eqb (Some cx) (Some cy) = false ->
+  amt_div cp y x = Ok q ->
+  let rate := let r := amt_abs q in mkAmt (aq r) (aprec r) true (acomm r) in
+  apply_rate ord cp rate (Some cx) ps bal = Ok (ps', bal') ->
+  den bal (Some cx) == aq x -> den bal (Some cy) == aq y ->
+  rated_sum (Some cx) ps (Some cx) == aq x ->
+  map p_amt ps' = map p_amt ps /\
+  den bal' (Some cx) == 0 /\
+  den bal' (Some cy) == aq y + Qabs (aq y / aq x) * aq x.
+Proof.
+  intros Hx Hy Hne Hq rate Ha Hbx Hby Hsum.
+  assert (Hrate_c : acomm rate = Some cy).
+  { unfold rate. cbn [acomm]. unfold amt_abs. destruct (Qnum (aq q) <? 0)%Z; cbn [amt_neg acomm];
+      unfold amt_div in Hq; destruct (is_realzero x); try discriminate; injection Hq as <-; cbn [acomm];
+      rewrite Hy; reflexivity. }
+  assert (Hrate_q : aq rate == Qabs (aq y / aq x)).
+  { unfold rate. cbn [aq]. rewrite amt_abs_exact. apply amt_div_exact in Hq as [_ Hq]. rewrite Hq. reflexivity. }
+  destruct (apply_rate_exact ord cp rate (Some cx) (Some cx) _ _ _ _ Ha) as [Hamt [_ [_ Hdx]]].
+  destruct (apply_rate_exact ord cp rate (Some cx) (Some cy) _ _ _ _ Ha) as [_ [_ [_ Hdy]]].
+  destruct (rated_cost_sum_exact cp rate (Some cx) cy ps Hrate_c) as [Hc1 Hc2].
+  split; [exact Hamt|]. split.
+  - rewrite Hdx, Hbx, Hsum, (Hc2 (Some cx)); [ring|]. rewrite comm_eqb_sym. exact Hne.
+  - rewrite Hdy, Hby, Hc1, Hsum, Hrate_q.
+    assert (Hz : rated_sum (Some cx) ps (Some cy) == 0).
+    { clear -Hne. induction ps as [|p ps IH]; cbn [rated_sum]; [reflexivity|]. rewrite IH.
+      unfold rated. destruct (p_amt p) as [a|]; [|ring].
+      destruct (must_balance p && comm_eqb (acomm a) (Some cx)) eqn:E; [|ring].
+      apply andb_true_iff in E as [_ E]. unfold at_comm.
+      rewrite (comm_eqb_trans_l (Some cx) (acomm a) (Some cy) E), Hne. ring. }
+    rewrite Hz. ring.
+Qed.
+
+(* ... and that remainder vanishes exactly for opposite signs *)
+Lemma rate_remainder_zero_iff (x y : Q) :
+  ~ x == 0 -> (y + Qabs (y / x) * x == 0 <-> (y == 0 \/ (0 < x /\ y < 0) \/ (x < 0 /\ 0 < y))).
+Proof.
+  intros Hx.
+  assert (Hdiv : forall a, a / x * x == a) by (intros a; field; exact Hx).
+  destruct (Qlt_le_dec (y / x) 0) as [Hneg|Hpos].
+  - rewrite (Qabs_neg (y / x)) by (apply Qlt_le_weak; exact Hneg).
+    assert (E : y + - (y / x) * x == 0) by (rewrite <- (Hdiv y) at 1; ring).
+    split; [intros _|intros _; exact E].
+    (* y/x < 0 : opposite signs *)
+    destruct (Qlt_le_dec 0 x) as [Hxp|Hxn].
+    + right. left. split; [exact Hxp|]. rewrite <- (Hdiv y).
+      setoid_replace 0 with (0 * x) by ring. apply Qmult_lt_compat_r; assumption.
+    + assert (Hx' : x < 0) by (destruct (Qle_lt_or_eq _ _ Hxn) as [H|H]; [exact H | contradiction]).
+      right. right. split; [exact Hx'|]. rewrite <- (Hdiv y).
+      (* (y/x) < 0 and x < 0 gives (y/x) * x > 0 *)
+      assert (H0 : 0 < (- (y / x)) * (- x)).
+      { apply Qmult_lt_0_compat; [lra | lra]. }
+      lra.
+  - rewrite (Qabs_pos (y / x)) by exact Hpos. rewrite Hdiv. split.
+    + intros H. left. lra.
+    + intros [H|[[Hxp Hyn]|[Hxn Hyp]]]; [lra | exfalso | exfalso].
+      * assert (y / x * x < 0) by (rewrite Hdiv; exact Hyn).
+        assert (0 <= y / x * x) by (apply Qmult_le_0_compat; lra). lra.
+      * assert (0 < y / x * x) by (rewrite Hdiv; exact Hyp).
+        assert (y / x * x <= 0).
+        { setoid_replace (y / x * x) with (- ((y / x) * (- x))) by ring.
+          assert (0 <= y / x * - x) by (apply Qmult_le_0_compat; lra). lra. }
+        lra.
+Qed.
